@@ -146,6 +146,40 @@ def check_index_bounds(ctx, m, rule='C15.R9', tail=''):
                       'the index %s is only tested against the length (%s) before it selects an instance: a negative index counts from the end (another instance than the one addressed), and one below -len raises IndexError (General Failure)' % (it, U(up_test.stmt)))
     ctx.count('length_bounded_index_selections', n, 3)
 
+def check_setters_refuse_by_type_only(ctx):
+    """C15.R10: the property setters of the stored classes refuse a value for its type only."""
+    from ..cfg import CFG
+    from ..guards import dominating_edges
+    PIE_ = 'kmip/pie/objects.py'
+    ctx.rule('C15.R10', 'the attribute operations update several fields of a stored row in place, one assignment after the other, and nothing is rolled back when an item fails: so a property setter of kmip/pie/objects.py may refuse a value only for its type (raises sit behind isinstance / None tests, which the decoded request values always pass) or unconditionally - a setter that refuses some VALUES (an empty string, a number out of range) can fail at the second field after the first was written, and the half-applied change is persisted by the next commit although the call reported failure')
+    t = ctx.src.tree(PIE_)
+    n = 0
+
+    def type_test_only(e):
+        if isinstance(e, ast.BoolOp):
+            return all(type_test_only(v) for v in e.values)
+        if isinstance(e, ast.UnaryOp) and isinstance(e.op, ast.Not):
+            return type_test_only(e.operand)
+        if isinstance(e, ast.Call) and call_name(e) in ('isinstance', 'issubclass', 'callable'):
+            return True
+        if isinstance(e, ast.Compare) and len(e.ops) == 1 and isinstance(e.ops[0], (ast.Is, ast.IsNot)) and isinstance(e.comparators[0], ast.Constant) and e.comparators[0].value is None:
+            return True
+        if isinstance(e, ast.Compare) and len(e.ops) == 1 and isinstance(e.ops[0], (ast.Eq, ast.NotEq, ast.Is, ast.IsNot)) and isinstance(e.left, ast.Call) and call_name(e.left) == 'type':
+            return True
+        return False
+    for c in [x for x in t.body if isinstance(x, ast.ClassDef)]:
+        for f in [x for x in c.body if isinstance(x, ast.FunctionDef) and any(isinstance(d, ast.Attribute) and d.attr == 'setter' for d in x.decorator_list)]:
+            n += 1
+            g = CFG(f)
+            for nd in g.nodes:
+                if nd.kind == 'stmt' and isinstance(nd.stmt, ast.Raise):
+                    tests = [tt.stmt for tt, lab in dominating_edges(g, nd)]
+                    bad = [U(x)[:60] for x in tests if not type_test_only(x)]
+                    ctx.check(not bad, 'C15.R10', '%s.%s setter|raise under a value test' % (c.name, f.name), '%s:%s %s.%s' % (PIE_, nd.stmt.lineno, c.name, f.name),
+                              'the setter refuses by type only', 'the setter of %s.%s raises depending on the VALUE it is given (%s): an in-place update of several fields can fail half way and is not rolled back' % (c.name, f.name, '; '.join(bad)))
+    ctx.count('pie_property_setters', n, 10)
+
+
 def run(ctx):
     src = ctx.src
     ai = EngineAI.shared(src)
@@ -323,5 +357,6 @@ def run(ctx):
     if not bad4:
         ctx.ok('C15.R4', ENGINE, 'none of the %d failure exits of the three operations is reached with a modified object' % n_r4)
     check_index_bounds(ctx, m, 'C15.R9')
+    check_setters_refuse_by_type_only(ctx)
     ctx.not_decided += ['"exactly the addressed instance" for positional indices after deletions (value-level)', 'that GetAttributes afterwards reflects the change (C05)']
     ctx.assumptions += ['T_PROTECTED transcribes the property statement (owner has no attribute name; its field _owner is included)']
